@@ -883,7 +883,12 @@ pub fn gen_family(rng: &mut Rng, fam: Family, lim: &GenLimits) -> GenModel {
         }
         Family::PrimalDualInfeasible => {
             // infeasible rows plus an objective direction that is unbounded in the relaxed cone
-            let n = rng.usize(2, lim.max_cont.clamp(2, 3));
+            let second_shape = lim.max_cont >= 3 && rng.chance(1, 2);
+            let n = if second_shape {
+                3
+            } else {
+                rng.usize(2, lim.max_cont.clamp(2, 3))
+            };
             let doms: Vec<Dom> = (0..n)
                 .map(|_| {
                     if rng.chance(1, 2) {
@@ -899,8 +904,8 @@ pub fn gen_family(rng: &mut Rng, fam: Family, lim: &GenLimits) -> GenModel {
             // third column that occurs in no row and is unbounded in the improving
             // direction — the ray an interior-point iterate runs away along lies entirely
             // outside the contradicting rows
-            if n >= 3 && rng.chance(1, 2) {
-                if rng.chance(2, 3) {
+            if second_shape {
+                if rng.chance(5, 6) {
                     for v in vars.iter_mut() {
                         v.dom = Dom::Real { lo: None, hi: None };
                     }
@@ -910,8 +915,8 @@ pub fn gen_family(rng: &mut Rng, fam: Family, lim: &GenLimits) -> GenModel {
                 a[1] = *rng.pick(&[1.0, -1.0, 1.0, 3.0]);
                 let b = dyadic(rng, -3, 3, lim);
                 let d = *rng.pick(&[1.0, 2.0, 0.5, 4.0]);
-                let (c0, c1, r0, r1) = match rng.below(4) {
-                    0 | 3 => (Cmp::Eq, Cmp::Eq, b, b + d),
+                let (c0, c1, r0, r1) = match rng.below(6) {
+                    0 | 3 | 4 | 5 => (Cmp::Eq, Cmp::Eq, b, b + d),
                     1 => (Cmp::Le, Cmp::Ge, b, b + d),
                     _ => (Cmp::Eq, Cmp::Ge, b, b + d),
                 };
